@@ -4,7 +4,6 @@ import (
 	"fmt"
 	"strings"
 
-	"golang.org/x/tools/go/ssa"
 
 	"tdxlint/internal/flow"
 	"tdxlint/internal/load"
@@ -258,7 +257,7 @@ func (env *Env) c03Phrase(d collateralDoc) {
 	if sp == nil {
 		return
 	}
-	g, _ := sp.Members[d.phraseVar[i+1:]].(*ssa.Global)
+	g := env.P.Global(d.phraseVar[:i], d.phraseVar[i+1:])
 	if g == nil {
 		r.Undecided("C03/R1/"+d.name, "phrase-var", "", d.phraseVar+" not found")
 		return
